@@ -97,7 +97,7 @@ class NonceMonitor(Monitor):
         return (len(self.violations),)
 
 
-STEPS = ["small", "best", "retry", "frag", "burst40", "idle0.5", "idle3", "long0.3", "long1.2", "stream", "fastloop"]
+STEPS = ["small", "best", "retry", "frag", "burst40", "idle0.5", "idle3", "long0.3", "long1.2", "stream", "fastloop", "skick"]
 
 
 def do_step(w, dm, step):
@@ -138,6 +138,17 @@ def do_step(w, dm, step):
                 app_send(w, dm, "c", MARK + b"f", "none")
             w.tick(dt=0.001)
         w.fates = saved
+    elif step == "skick":
+        # the SERVER closes the session while the client still has a fragmented upload and unacked retry-mode messages
+        # to emit: whatever the client sends until it has noticed stays sealed
+        app_send(w, dm, "c", MARK * 400, "none")
+        app_send(w, dm, "c", MARK + b"kick-best", "best")
+        app_send(w, dm, "c", MARK + b"kick-retry", "retry")
+        w.run(2)
+        sc = w.server_conn(0)
+        if sc is not None:
+            sc.disconnect()
+        w.run(int(1.5 / tick))
     elif step.startswith("idle"):
         w.run(int(float(step[4:]) / tick))
     elif step.startswith("long"):
@@ -224,6 +235,8 @@ def params_list(tier):
                 out.append(("early", p, "sc", 0, 0.02))
     for start in ("fresh", "near-wrap", "ring63"):
         for p in progs:
+            if "skick" in p and p[-1] != "skick" or p.count("skick") > 1:
+                continue
             if "stream" in p and (start != "ring63" or p.count("stream") > 1 or (tier == "quick" and p[0] != "stream")):
                 continue
             if "fastloop" in p and (start != "ring63" or p.count("fastloop") > 1 or (tier == "quick" and len(p) > 1 and p[0] != "fastloop" and not (p[0].startswith(("idle", "long")) and p[1] == "fastloop")) or "stream" in p):
